@@ -171,7 +171,8 @@ where
         Ok(Self {
             reader,
             max_lit: header.max_var_index * 2 + 1,
-            code: (header.input_count + 1) * 2,
+            // Wraps only when no latch or and gate can follow (I == M == usize::MAX / 2).
+            code: (header.input_count + 1).wrapping_mul(2),
             header,
             _lit_builder: std::marker::PhantomData,
         })
@@ -366,7 +367,8 @@ where
 
             token::required_newline(&mut self.parser.reader)?;
         }
-        self.parser.code += 2;
+        // The code after the last variable is never used and may not be representable.
+        self.parser.code = self.parser.code.wrapping_add(2);
         Ok(Some(OrderedLatch {
             next_state,
             initialization,
@@ -643,7 +645,8 @@ where
             "first input code",
         )?;
 
-        self.parser.code += 2;
+        // The code after the last variable is never used and may not be representable.
+        self.parser.code = self.parser.code.wrapping_add(2);
         Ok(Some(OrderedAndGate {
             inputs: [L::from_code(input_code_0), L::from_code(input_code_1)],
         }))
@@ -838,7 +841,8 @@ where
             header.fairness_constraint_count,
         ];
 
-        self.code = (header.input_count + 1) * 2;
+        // Wraps only when no latch or and gate can follow (I == M == usize::MAX / 2).
+        self.code = (header.input_count + 1).wrapping_mul(2);
 
         let mut fields = fields.as_slice();
 
@@ -876,7 +880,8 @@ where
                 self.writer.write_all_defer_err(b"\n");
             }
         }
-        self.code += 2;
+        // The code after the last variable is never used and may not be representable.
+        self.code = self.code.wrapping_add(2);
     }
 
     pub fn write_count(&mut self, count: usize) {
@@ -896,7 +901,8 @@ where
 
         self.write_binary_uint(delta_0);
         self.write_binary_uint(delta_1);
-        self.code += 2;
+        // The code after the last variable is never used and may not be representable.
+        self.code = self.code.wrapping_add(2);
     }
 
     fn write_binary_uint(&mut self, mut code: usize) {
